@@ -9,7 +9,7 @@ From LV Require Import Base.Bytes Model.Obj Model.Crypto.Word Model.Crypto.RC4 M
   Proofs.CryptoProofsDoc Proofs.CryptoProofsExamples Proofs.CryptoProofsAES Model.Crypto.Concrete
   Proofs.CryptoProofsSHA Proofs.IsoProofsDoc2 Proofs.IsoProofsDoc7 Proofs.CryptoProofsAuth Proofs.CryptoProofsRT.
 (* the composition with property C01 (save and reload) *)
-From LV Require Model.Loader Model.LoaderCrypt Spec.SaveSpec Proofs.LoadProofsXref Proofs.ComposeCrypt.
+From LV Require Model.Loader Model.LoaderCrypt Spec.SaveSpec Proofs.LoadProofsXref Proofs.ComposeCrypt Proofs.ComposeCryptExample.
 
 (* lopdf's RC4: decrypting what was encrypted under the same key gives the message back, for every key
    the constructor accepts (1..256 bytes; any other length panics = None) and every message *)
@@ -382,7 +382,33 @@ Proof.
     [exact md5_len16 | exact (concrete_with_aes_ok dec) | exact sha256_length | exact sha384_length | exact sha512_length].
 Qed.
 
-(* the part that is only about Document::decrypt: on the SaveSpec.reloaded encrypted document it does what it does on the
+(* without an Encrypt entry in the trailer the decrypt attempt at the end of Reader::read is the identity *)
+Theorem C05_load_attempt_without_encrypt :
+  forall P x d t, dict_get (d_trailer d) K_Encrypt = None ->
+    LoaderCrypt.after_crypt P x d t = LoaderCrypt.CLoad (Loader.LOk d t).
+Proof. exact ComposeCrypt.after_crypt_without_encrypt. Qed.
+
+(* non-vacuity: C05's example document under V2 / 128-bit RC4 (the state and the encrypted document computed by the
+   executable model) meets every hypothesis, in both formats; the empty password does not open it -- the load of the
+   stream-format file returns [reloaded XStream d1], still encrypted --, and "user" is a right password *)
+Theorem C05_example_save_load :
+  match ComposeCryptExample.ex_st, ComposeCryptExample.ex_d1 with
+  | Some st, Some d1 =>
+    try_from_version concrete ex_doc ex_v2 ComposeCryptExample.ex_rnd = Ok st /\
+    doc_encrypt concrete st ex_doc ex_ivs = DOk d1 tt /\
+    version_in_domain ex_v2 /\ max_id_ok ex_doc /\ dict_get (d_trailer ex_doc) K_Encrypt = None /\
+    Forall (fun io : oid * obj => SaveSpec.top_wf (snd io) /\ Model.Save.skipped (snd io) = false) (d_objects ex_doc) /\
+    SaveSpec.savable_enc d1 /\ SaveSpec.known_deep d1 = false /\
+    SaveSpec.small_file Model.Save.XTable d1 /\ SaveSpec.small_file Model.Save.XStream d1 /\
+    LoaderCrypt.authenticate_password concrete d1 [] = Err D_IncorrectPassword /\
+    right_password concrete d1 ex_v2 ex_user /\
+    LoaderCrypt.load_crypt concrete (fun _ => false) (Model.Save.so_bytes (Model.Save.save Model.Save.XStream d1)) =
+      LoaderCrypt.CLoad (Loader.LOk (SaveSpec.reloaded Model.Save.XStream d1) Model.Xref.XTStream)
+  | _, _ => False
+  end.
+Proof. exact ComposeCryptExample.compose_example. Qed.
+
+(* the part that is only about Document::decrypt: on the reloaded encrypted document it does what it does on the
    encrypted document, on normal forms -- decrypt_object commutes with C01's normal form of objects *)
 Theorem C05_decrypt_commutes_with_normal_form :
   forall P st id o,
@@ -426,3 +452,5 @@ Print Assumptions C05_example_objstm.
 Print Assumptions C05_encrypt_save_load_decrypt.
 Print Assumptions C05_encrypt_save_load_decrypt_concrete.
 Print Assumptions C05_decrypt_commutes_with_normal_form.
+Print Assumptions C05_example_save_load.
+Print Assumptions C05_load_attempt_without_encrypt.
